@@ -50,6 +50,11 @@ NotInIsNegation == \A hay \in {Arr(<<Num(a), Num(0)>>), Arr(<<>>), Hash(<< <<S2B
   /\ BinOp("in", Num(b), hay, S0)[1].b = (\E k \in 1..SeqLen(hay) :
         (IF hay.t = "arr" THEN hay.els[k] ELSE hay.pairs[k][2]) = Num(b))
 
+RangeDescending == (a % Scale = 0 /\ b % Scale = 0 /\ a > b) =>
+  LET r == V("..", a, b) IN
+  /\ r.t = "arr" /\ Len(r.els) = (a - b) \div Scale + 1
+  /\ \A k \in 1..Len(r.els) : r.els[k] = Num(a - (k - 1) * Scale)
+
 AddSubInverse == (InWindow(a + b)) => V("-", a + b, b) = Num(a)
 MulCommutes == V("*", a, b) = V("*", b, a)
 PowIsRepeatedMul == (b % Scale = 0 /\ b >= 0 /\ b <= 3 * Scale /\ Defined2("**", a, b)) =>
